@@ -272,6 +272,20 @@ func (e *Engine) verifyFunc(fn *ssa.Function, fc *FuncContract) (rep *FuncReport
 			}
 			ce.outRow = append(ce.outRow, row)
 		}
+		for i, pv := range fc.Proves {
+			// proof hint: proved here, then available to the postconditions (assert-then-assume)
+			t, err := env.EvalBool(pv.E)
+			if err != nil {
+				if ri == 0 {
+					fr.contractError(pv, err)
+				}
+				continue
+			}
+			fr.obligation("proves", labelOr(pv.Label, i+1), r.cond, t, pv.Text)
+			if ta, err := env.EvalAssume(pv.E); err == nil {
+				c.Assume(Implies(r.cond, ta))
+			}
+		}
 		for i, en := range fc.Ensures {
 			t, err := env.EvalBool(en.E)
 			if err != nil {
